@@ -10,6 +10,7 @@ import (
 	"strings"
 
 	"github.com/lindb/lindb/internal/verifhook"
+	"github.com/lindb/lindb/series"
 	"github.com/lindb/lindb/sql"
 	"github.com/lindb/lindb/sql/stmt"
 
@@ -594,6 +595,49 @@ func (d *dbt) query(name string, cond stmt.Expr, groupBy []string, how string) {
 	d.oracle(name, cond, groupBy, &res)
 }
 
+// queryPlan runs one leaf query through the real stage plans (metadataLookupStage.Plan,
+// shardScanStage.Plan, baseStage.execute); cond == nil = no WHERE clause (metric-all-series branch).
+func (d *dbt) queryPlan(name string, cond stmt.Expr, groupBy []string, how string) {
+	toks := "-"
+	if cond != nil {
+		t, ok := condTokens(cond)
+		if !ok {
+			return
+		}
+		toks = t
+		d.sendRx(cond)
+	}
+	gb := "-"
+	if len(groupBy) > 0 {
+		hs := make([]string, len(groupBy))
+		for i, k := range groupBy {
+			hs[i] = hx(k)
+		}
+		gb = strings.Join(hs, ",")
+	}
+	op := "qplan " + metricTok(name) + " " + gb + " " + toks
+	res, res2 := d.e.queryPlan(nsName, name, cond, groupBy)
+	if !d.silent {
+		d.c.Op(op, res.line(groupBy))
+	}
+	if l1, l2 := res.line(groupBy), res2.line(groupBy); l1 != l2 {
+		// two shard contexts of ONE storage context (shared TagFilterResult) over the same index
+		d.c.Fail("second-shard-differs", fmt.Sprintf("the second shard context of the query answered %.200q, the first %.200q [%s]", l2, l1, op))
+	} else {
+		d.c.Branch("plan/second-shard-agrees")
+	}
+	d.c.Branch("query/" + how)
+	if cond == nil {
+		d.c.Branch("plan/no-condition")
+		if len(groupBy) > 0 {
+			d.c.Branch("plan/no-condition-group-by")
+		}
+	} else {
+		d.c.Branch("plan/with-condition")
+	}
+	d.oracle(name, cond, groupBy, &res)
+}
+
 // classify names the known defect (if any) whose shape the condition has.
 func (d *dbt) classify(cond stmt.Expr, res *queryResult) string {
 	var atoms []stmt.TagFilter
@@ -635,8 +679,10 @@ func (d *dbt) oracle(name string, cond stmt.Expr, groupBy []string, res *queryRe
 	c.Branch("result/" + strings.Fields(got + " x")[0] + "-" + strings.TrimPrefix(got, "err "))
 	recs, known := d.series[name]
 	fail := func(key, desc string) {
-		if k := d.classify(cond, res); k != "" {
-			key = k
+		if cond != nil {
+			if k := d.classify(cond, res); k != "" {
+				key = k
+			}
 		}
 		if d.parkedAt != "" && key != "panic" {
 			key = d.parkedKey
@@ -659,7 +705,11 @@ func (d *dbt) oracle(name string, cond stmt.Expr, groupBy []string, res *queryRe
 				desc += fmt.Sprintf(" %d:%v", id, rec.tags)
 			}
 		}
-		c.Fail(key, fmt.Sprintf("%s [cond %s, group by %v]", desc, cond.Rewrite(), groupBy))
+		condText := "<no where clause>"
+		if cond != nil {
+			condText = cond.Rewrite()
+		}
+		c.Fail(key, fmt.Sprintf("%s [cond %s, group by %v]", desc, condText, groupBy))
 	}
 	// ---- expected outcome class
 	want := "ok"
@@ -672,11 +722,11 @@ func (d *dbt) oracle(name string, cond stmt.Expr, groupBy []string, res *queryRe
 				want = "err key-not-found"
 			}
 		}
-		if want == "ok" {
+		if want == "ok" && cond != nil {
 			want = d.expectCond(name, cond)
 		}
 	}
-	if !shaped(cond) {
+	if cond != nil && !shaped(cond) {
 		// outside the grammar's shape: the reference semantics does not define `not` there; only a
 		// panic is reported.
 		c.Branch("cond/outside-grammar-shape")
@@ -695,7 +745,7 @@ func (d *dbt) oracle(name string, cond stmt.Expr, groupBy []string, res *queryRe
 	// ---- selected series == {s | eval(tags s)}
 	exp := map[uint32]bool{}
 	for id, rec := range recs {
-		if evalRef(cond, rec.tags) {
+		if cond == nil || evalRef(cond, rec.tags) {
 			exp[id] = true
 		}
 	}
@@ -710,12 +760,20 @@ func (d *dbt) oracle(name string, cond stmt.Expr, groupBy []string, res *queryRe
 		}
 	}
 	for id := range gotSet {
+		if cond == nil && len(groupBy) == 0 && id == series.IDWithoutTags {
+			// metricAllSeries.Execute adds series.IDWithoutTags when the query has no group-by
+			continue
+		}
 		if !exp[id] {
 			extra = append(extra, id)
 		}
 	}
 	if len(missing)+len(extra) > 0 {
-		fail("filter-ne-eval", fmt.Sprintf("selected %v; missing %v, extra %v", sortedU32(res.series), sortedU32(missing), sortedU32(extra)))
+		key := "filter-ne-eval"
+		if cond == nil {
+			key = "nocond-ne-all-series"
+		}
+		fail(key, fmt.Sprintf("selected %v; missing %v, extra %v", sortedU32(res.series), sortedU32(missing), sortedU32(extra)))
 		return
 	}
 	if len(exp) > 0 {
@@ -1192,7 +1250,16 @@ func dbCase(c *core.Ctx, r *rand.Rand) {
 				continue
 			}
 			if q, ok := genQuery(c, r, metrics, keys, defects); ok {
-				d.query(q.metric, q.cond, q.groupBy, q.how)
+				// round 12: one query in three goes through the real stage plans (the Plan() functions
+				// pick the operators), half of those without a WHERE clause
+				switch r.Intn(6) {
+				case 0:
+					d.queryPlan(q.metric, nil, q.groupBy, "plan-nocond")
+				case 1:
+					d.queryPlan(q.metric, q.cond, q.groupBy, "plan-"+q.how)
+				default:
+					d.query(q.metric, q.cond, q.groupBy, q.how)
+				}
 			}
 		}
 	}
